@@ -118,8 +118,8 @@ class Model:
         elif k == 'cat_ut':
             self.t = list(self.u) + list(self.t)
             self.index_only = False
-        elif k == 'write':
-            pass
+        elif k in ('write', 'get'):
+            pass            # no effect on the value: 'get' parses a field (hidden state of a lazy table), 'write' compacts it
         elif k == 'replace':
             j = self.fields.index(op[1])
             vals = replacement_values(self.kinds[j], len(self.t))
@@ -151,6 +151,9 @@ def apply_impl(t, u, op, fields, kinds, buffer_type=None):
         return t, u
     if k in ('slice', 'step2', 'rev', 'mask', 'fancy'):
         return t[index_for(op, len(t))], u
+    if k == 'get':
+        getattr(t, op[1])
+        return t, u
     if k == 'save':
         return t, t
     if k == 'cat_tu':
